@@ -193,13 +193,15 @@ class OpsMixin:
         npers = len(run.persistent)
         saved = dict(run.decided)
         run.guard_depth += 1
+        saved_unchecked = run.guard_unchecked
+        run.guard_unchecked = 1
         if not persist:
             run.nopersist += 1
         try:
             run.pc.append(c)
             run.solver.add(c)
-            if run.check() == z3.unsat:
-                return None
+            # the guard's own satisfiability is only looked at when it matters (the guarded expression raises, or needs a decision): most guarded
+            # sub-expressions of specifications are total, and their value is only ever used under the guard
             try:
                 return thunk()
             except E.PathEnd:
@@ -211,6 +213,7 @@ class OpsMixin:
                 raise
         finally:
             run.guard_depth -= 1
+            run.guard_unchecked = saved_unchecked if run.guard_unchecked else 0
             if not persist:
                 run.nopersist -= 1
             del run.pc[npc:]
